@@ -1025,10 +1025,10 @@ def main(argv):
     fclass = {}          # class -> [cases, cases where code != shown]
     reports = []
 
-    def report(kind, i, msg):
+    def report(kind, i, msg, order=None):
         txt = cases[i][2]
         shown_txt = repr(txt) if len(txt) <= 400 else repr(txt[:200]) + "...(%d bytes)..." % len(txt) + repr(txt[-120:])
-        reports.append((kind, len(txt), "%s case=%d seed=%d text=%s class=%s hex=%s %s" % (
+        reports.append((kind, len(txt) if order is None else order, "%s case=%d seed=%d text=%s class=%s hex=%s %s" % (
             kind, i, seed, shown_txt, classes[i], hx(txt) if len(txt) <= 20000 else "-", msg[:1500])))
 
     for i, (hline, dline, (t, style, text)) in enumerate(zip(hl, dl, cases)):
@@ -1105,7 +1105,7 @@ def main(argv):
             if one != scr and scr != "SKIP":
                 report("SCRIPT", i, "position=%s script-statement=%d of %d (type number %d in the script): alone %s, inside the script %s%s" % (
                     posn, stno, 2 * len(script_idx), k, short(one, scr), short(scr, one),
-                    "" if cases[i][0] is None else " type " + canon_py(cases[i][0])[:300]))
+                    "" if cases[i][0] is None else " type " + canon_py(cases[i][0])[:300]), order=k)
                 break
     if first_script_bad is not None and opts["--script-dump"]:
         with open(opts["--script-dump"], "w") as f:
